@@ -25,6 +25,6 @@ Definition claim_v (c : vcase) : bool :=
 Definition check_v (c : vcase) : bool :=
   match run_v c with
   | VPass => match store16 (v_y c) with Some v => zeqb_list v (v_out c) && feq_bits (v_lopt c) zero | None => true end
-  | VFit z l => match store16 z with Some v => zeqb_list v (v_out c) && feq_bits l (v_lopt c) | None => true end
+  | VFit z l => feq_bits l (v_lopt c) && match store16 z with Some v => zeqb_list v (v_out c) | None => true end
   | VStuck => false
   end.
